@@ -245,6 +245,15 @@ func checkC19(c *Ctx) {
 	if setter := c.fn(TD, "(*Directory).SetAllowAnonymousBind"); setter != nil && len(setter.Params) == 2 {
 		for _, f := range an.WithClosures(setter) {
 			an.Instrs(f, func(in ssa.Instruction) {
+				// ... or an atomic.Bool field set with Store(enabled) and read with Load()
+				if call, isCall := in.(*ssa.Call); isCall {
+					if g := call.Common().StaticCallee(); g != nil && an.FuncPkgPath(g) == "sync/atomic" && g.Name() == "Store" && len(call.Common().Args) == 2 && an.Strip(call.Common().Args[1]) == ssa.Value(setter.Params[1]) {
+						if fa, isFA := call.Common().Args[0].(*ssa.FieldAddr); isFA && an.TypeIs(fa.X.Type(), TD, "Directory") {
+							table["sync/atomic.(*Bool).Load(&$0."+an.FieldAddrName(fa)+")"] = "anon"
+						}
+					}
+					return
+				}
 				st, ok := in.(*ssa.Store)
 				if !ok {
 					return
@@ -344,6 +353,20 @@ func checkC19(c *Ctx) {
 			}
 		})
 	}
+	// slices.ContainsFunc(d.users, func(u) bool {...}) is the same existential over all of d.users, with no state
+	an.Instrs(h, func(in ssa.Instruction) {
+		if call, ok := in.(*ssa.Call); ok && len(call.Common().Args) == 2 {
+			if g := call.Common().StaticCallee(); g != nil && (an.FuncPkgPath(g) == "slices" || an.FuncPkgPath(g) == "golang.org/x/exp/slices") {
+				name := g.Name()
+				if o := g.Origin(); o != nil {
+					name = o.Name()
+				}
+				if _, isMC := call.Common().Args[1].(*ssa.MakeClosure); isMC && name == "ContainsFunc" && an.Canon(call.Common().Args[0]) == "$0.users" {
+					loops++
+				}
+			}
+		}
+	})
 	w.Event = func(in ssa.Instruction, k *an.Walk) {
 		if code, isK, is := isSet(in); is && isK {
 			k.Data["code"] = code
